@@ -48,6 +48,8 @@ CLAIMS["C18"] = ("PARTIAL. Lean theorems over ℝ: the default method returns ex
                  "Trusted: Lean kernel + Mathlib; harness oracle; libm.")
 CLAIMS["C19"] = ("PARTIAL. Lean theorems over ℝ: the plane point IntersectExt computes lies on both lines whenever they are not parallel (homogeneous_meet, Cramer); lines pass through their end points; swapping a segment's end points does not move it; sameDirection: equal or close azimuths agree, opposite ones do not; Intersect reports the point iff both azimuth pairs agree, i.e. inside both segments, and errors when outside either (intersect_decision, inside_both_is_reported, outside_either_is_error). Projection round-trip accuracy, the 1 mm / 1e-6° claims and NaN beyond the horizon are sampled with the real geodesic library on constructed crossings.",
                  "Trusted: Lean kernel + Mathlib; tidwall/geodesic as reference solver; harness.")
+CLAIMS["C14"] = ("PARTIAL. Lean theorems about a labelled transition system of Encode's two goroutines (producer: header, pipe writes, close, wait, gzip close; consumer: line filter) for every chunking, line structure, failing index k, compression flag and EVERY interleaving/read size: every step decreases a measure (terminates, run_length_bounded); a state where nobody can move is a returned state with the filter exited (no_deadlock); k < W always ends in an error (every_fault_index_fails), no fault always ends in success (no_fault_succeeds) with all bytes delivered (success_complete); result is schedule independent. The model is tied to the code by running the real encoder under a fault-injecting writer with a watchdog and goroutine accounting.",
+                 "Trusted: Lean kernel; io.Pipe contract as modelled; harness watchdog.")
 
 NA_REASON = "check under construction in this round (design in DESIGN.md); will be claimed once its model, theorems and correspondence exist"
 
